@@ -14,9 +14,9 @@
 EXTENDS ValueCodec, TLC, Json, IOUtils
 
 \* the trace is read once (register 1): TLC does not cache definitions that depend on IOEnv
-ASSUME TLCSet(1, ndJsonDeserialize(IOEnv.TRACE))
+ASSUME TLCSet(1, ndJsonDeserialize(IOEnv.TRACE)) /\ TLCSet(2, IOEnv.PROP)
 Rec == TLCGet(1)
-Prop == IOEnv.PROP
+Prop == TLCGet(2)
 
 \* Peak allocation allowed for an input of n bytes.  On the unchanged tree the measured maximum is 183
 \* bytes per input byte (Vec1 of 300 `None`: a Vec<Value> with 72-byte elements while it doubles; the
